@@ -19,7 +19,7 @@ META = dict(
                        'control.decodeSlice', 'control.decodeStruct', 'bufio.NewReader', '(*bufio.Reader).Peek/ReadString/ReadSlice/fill/collectFragments', '(*strings.Reader).Read',
                        'strings.TrimSpace', 'strings.TrimRightFunc', 'strings.SplitN (model)'],
     stubs=['bytes.IndexByte (position case split)', 'fmt.Errorf (opaque error)', 'reflect (model over the interpreter heap, see engine/symgo/reflectmodel.py)', 'unicode.IsSpace table'],
-    bounds={'quick': 'invariant: every byte string (all 256 values) of length <= 5; documents: 1-2 paragraphs x 1-2 fields, five value shapes (single line, first+continuation, empty first line, " ." empty line, two continuations), LF/CRLF, space/tab continuation marker, final newline or not, 1-2 separator lines, leading blank line, comment lines at start / between fields / inside a continuation / at the end, 1-2 trailing blanks (space or tab) on every line; names 1-2, texts 1-2 symbolic printable characters',
+    bounds={'quick': 'invariant: every byte string (all 256 values) of length <= 5; documents: 1-2 paragraphs x 1-2 fields, five value shapes (single line, first+continuation, empty first line, " ." empty line, two continuations), LF/CRLF, space/tab continuation marker, final newline or not, 1-2 separator lines, leading blank line, comment lines at start / between fields / inside a continuation / at the end, 1-2 trailing blanks (space or tab) on every line, physical lines of more than 4200 bytes (longer than the bufio buffer); names 1-2, texts 1-2 symbolic printable characters',
             'thorough': 'invariant: length <= 7; documents: texts of 1-3 characters, all two-paragraph combinations'},
     outside_claim=['documents beyond the template bound', 'whitespace-only lines inside a paragraph (not well-formed deb822)'],
     assumptions=['a value is compared on its logical lines: one trailing newline (added by the reader to every folded value) is not significant, an empty first line followed by continuation lines is not a line (the reader\'s documented treatment of Files:-style fields)'])
@@ -50,6 +50,10 @@ def mk_field(sym, idx, shape, L):
     name = sym.leaf(L, firsts[idx % 4], NAMEC)
     text = lambda: sym.leaf(L, VIS, PRN, last=VIS)
     ctext = lambda: sym.leaf(L, bytes(set(VIS) - set(b'.')) if L == 1 else PRN, PRN, last=VIS)
+    if shape == 'long_single':
+        return name, tuple(b'v' * 4200) + text(), []
+    if shape == 'long_cont':
+        return name, text(), [tuple(b'c' * 4200) + ctext(), ctext()]
     if shape == 'single':
         return name, text(), []
     if shape == 'first_cont':
@@ -146,6 +150,9 @@ def templates(tier):
                     continue
                 ts.append(dict(paras=[list(pa), list(pb)], opt=dict(crlf=crlf, tab=False, final=final, sep=sep, leading=leading, trailing_blank=k % 2,
                                                                     comment='between_paras' if k % 5 == 0 else None), L=1))
+    for combo in (['long_single'], ['single', 'long_single'], ['long_cont', 'single'], ['long_single', 'long_cont']):
+        for crlf in (False, True):
+            ts.append(dict(paras=[combo], opt=dict(crlf=crlf, tab=False, final=True), L=1))
     three = [['single'], ['first_cont'], ['single', 'single']]
     ts.append(dict(paras=three, opt=dict(crlf=False, tab=False, final=True, sep=1), L=1))
     ts.append(dict(paras=three, opt=dict(crlf=True, tab=True, final=False, sep=2, leading=1), L=1))
